@@ -692,12 +692,9 @@ Section Exec.
     | [] => Ok st
     | i :: r => do n <- name_of i; do st' <- add_variable st n (mk n); declare mk r st'
     end.
-  (* command_integers / command_strings: plain assignment, no "already declared" check *)
-  Fixpoint declare_global (o : obj) (ids : list instr) (st : state) : res state :=
-    match ids with
-    | [] => Ok st
-    | i :: r => do n <- name_of i; declare_global o r (set_vars st (vset n o (st_vars st)))
-    end.
+  (* command_integers / command_strings (after fix C03-F2): add_variable, like ENTRY and FUNCTION -- a name that is
+     already bound is BibTeX's "already declared" error *)
+  Definition declare_global (o : obj) (ids : list instr) (st : state) : res state := declare (fun _ => o) ids st.
 
   (* Interpreter._iterate *)
   Fixpoint iterate (fuel : nat) (fname : str) (keys : list str) (st : state) : res state :=
